@@ -406,3 +406,34 @@ M("c15-lock-order", "C15", R,
   "                with self._ls_lock:\n                    timer = self._ls_timers.pop(sought_gn_addr, None)",
   "                with self.location_table.loc_t_lock, self._ls_lock:\n                    timer = self._ls_timers.pop(sought_gn_addr, None)",
   "LS reply takes table lock then LS lock (request path takes them the other way round)")
+
+# ---------------------------------------------------------------- C16 (schedules)
+LD = "flexstack/facilities/local_dynamic_map/"
+M("c16-insert-nolock", "C16", LD + "dictionary_database.py",
+  "        with self._lock:\n            index = self._next_id\n", "        if True:\n            index = self._next_id\n", "id allocation without the database lock")
+M("c16-update-resurrects", "C16", LD + "dictionary_database.py",
+  "            if index not in self.database:\n                # Deleted in the meantime: an update does not bring the object back.\n                return False\n", "",
+  "revert: update re-creates a deleted object")
+M("c16-delete-always-succeeds", "C16", LD + "if_ldm_3.py",
+  "                if self.ldm_service.ldm_maintenance.del_provider_data(stored) is not False:", "                if self.ldm_service.ldm_maintenance.del_provider_data(stored) is not None:",
+  "revert: delete answers SUCCEED without having removed anything")
+M("c16-dereg-double-ack", "C16", LD + "ldm_service.py",
+  "            registered = its_aid in self.data_consumer_its_aid\n", "            registered = True\n", "revert: every concurrent consumer deregistration is acknowledged")
+M("c16-subscribe-unlocked", "C16", LD + "if_ldm_4.py",
+  "        with self.ldm_service._lock:  # pylint: disable=protected-access\n            result = self.validate_subscribe_data_consumer", "        if True:\n            result = self.validate_subscribe_data_consumer",
+  "revert: subscribe validates and stores in two steps")
+M("c16-remove-sub-unlocked", "C16", LD + "ldm_service.py",
+  "        with self._lock:\n            if subscription in self.subscriptions:\n                self.subscriptions.remove(subscription)",
+  "        if True:\n            if subscription in self.subscriptions:\n                self.subscriptions.remove(subscription)",
+  "subscription removal without the service lock (ValueError when two removals race)")
+M("c16-consumer-set-copy", "C16", LD + "ldm_service.py",
+  "        with self._lock:\n            self.data_consumer_its_aid.add(its_aid)\n",
+  "        consumers = set(self.data_consumer_its_aid)\n        consumers.add(its_aid)\n        self.data_consumer_its_aid = consumers\n",
+  "consumer registry replaced by a copy (a concurrent registration/deregistration is lost)")
+M("c16-remove-unlocked", "C16", LD + "dictionary_database.py",
+  "        with self._lock:\n            for key, value in self.database.items():\n                if value == data_object:",
+  "        if True:\n            for key, value in self.database.items():\n                if value == data_object:", "remove iterates the store without the lock")
+M("c16-maint-thread-lock-order", "C16", LD + "ldm_maintenance_thread.py",
+  "    def search_data_containers(self, data_request: RequestDataObjectsReq) -> tuple[dict, ...]:\n        with self.data_containers_lock:\n            search_result = super().search_data_containers(data_request)",
+  "    def search_data_containers(self, data_request: RequestDataObjectsReq) -> tuple[dict, ...]:\n        with self.data_containers._lock, self.data_containers_lock:\n            search_result = super().search_data_containers(data_request)",
+  "threaded maintenance takes the database lock before its own lock in search (others take them the other way round)")
